@@ -12,10 +12,21 @@ use vstd::std_specs::ops::*;
 // a contract.  (assumption: format! has no effect on values)
 macro_rules! format { ($($t:tt)*) => { fmt_stub() } }
 
+// `unreachable!()` becomes a call with `requires false`: the arm must be PROVED dead from the callee contracts.
+macro_rules! unreachable { () => { unreachable_shim() } }
+// the only slice expression the extracted code uses: all but the first and the last element
+macro_rules! s { (1..-1) => { SliceInner } }
+
 verus! {
 
 #[verifier::external_body]
 pub fn fmt_stub() -> String { String::new() }
+#[verifier::external_body]
+pub fn unreachable_shim<A>() -> A requires false { unimplemented!() }
+/// body of a match arm that rewrite R10 dropped: NOTHING is claimed about executions that enter it
+#[verifier::external_body]
+pub fn opaque_arm<A>() -> A ensures false { unimplemented!() }
+pub struct SliceInner;
 
 // ---------------------------------------------------------------------------
 // arithmetic: uninterpreted rounding operators + two axiom groups
@@ -156,6 +167,7 @@ pub open spec fn t_rem_euclid(a: T, b: T) -> T {
     mk(fl_rem_euclid(a@, b@), if is_fin(a) && is_fin(b) && b@ != 0real { 0 } else { nf_kind(5, a, b) }, a.deps@.union(b.deps@))
 }
 
+pub open spec fn t_zero() -> T { mk(0real, 0, Set::empty()) }
 pub fn mk_exec(m: Ghost<T>) -> (r: T) ensures r == m@ { T { v: Ghost(m@.v@), k: Ghost(m@.k@), deps: Ghost(m@.deps@) } }
 
 impl AddSpecImpl<T> for T {
@@ -292,6 +304,77 @@ impl Lanes {
     #[verifier::external_body]
     pub fn set(&mut self, i: usize, t: T) requires i < old(self)@.len() ensures final(self)@ == old(self)@.update(i as int, t) { unimplemented!() }
 }
+impl Lanes {
+    /// ArrayView::into_owned / ArrayBase::view_mut on a lane bundle: same elements (logical model, no strides)
+    #[verifier::external_body]
+    pub fn into_owned(self) -> (r: Lanes) ensures r@ == self@ { unimplemented!() }
+    #[verifier::external_body]
+    pub fn view_mut(&mut self) -> (r: &mut Lanes) ensures r@ == old(self)@, final(self)@ == final(r)@ { unimplemented!() }
+}
+impl Arr1 {
+    /// IndexMut on a 1-D array (target of rewrite R8)
+    #[verifier::external_body]
+    pub fn set(&mut self, i: usize, t: T) requires i < old(self)@.len() ensures final(self)@ == old(self)@.update(i as int, t) { unimplemented!() }
+}
+impl Lanes {
+    #[verifier::external_body]
+    pub fn fill(&mut self, v: T)
+        ensures final(self)@.len() == old(self)@.len(), forall|i: int| 0 <= i < old(self)@.len() ==> #[trigger] final(self)@[i] == v { unimplemented!() }
+}
+/// `x.windows(n)`: producer of all length-n windows of a 1-D array
+pub struct Windows { pub src: Ghost<Seq<T>>, pub n: Ghost<nat> }
+impl Windows {
+    pub open spec fn count(&self) -> nat { if self.src@.len() >= self.n@ { (self.src@.len() - self.n@ + 1) as nat } else { 0 } }
+    #[verifier::external_body]
+    pub fn len(&self) -> (r: usize) ensures r == self.count() { unimplemented!() }
+    #[verifier::external_body]
+    pub fn get(&self, i: usize) -> (r: Arr1) requires i < self.count() ensures r@ == self.src@.subrange(i as int, i as int + self.n@ as int) { unimplemented!() }
+}
+impl Arr1 {
+    #[verifier::external_body]
+    pub fn windows(&self, n: usize) -> (r: Windows) requires n >= 1 ensures r.src@ == self@, r.n@ == n { unimplemented!() }
+    /// `a.slice_mut(s![1..-1])`: mutable view of all but the first and last element; writes land there and nowhere else
+    #[verifier::external_body]
+    pub fn slice_mut(&mut self, sl: SliceInner) -> (r: &mut Lanes)
+        requires old(self)@.len() >= 2
+        ensures r@ == old(self)@.subrange(1, old(self)@.len() - 1),
+                final(self)@.len() == old(self)@.len(), final(self)@[0] == old(self)@[0], final(self)@[old(self)@.len() - 1] == old(self)@[old(self)@.len() - 1],
+                final(self)@.subrange(1, old(self)@.len() - 1) == final(r)@,
+    { unimplemented!() }
+}
+#[verifier::external_body]
+pub fn zip_check4_w3(a: &Lanes, b: &Lanes, c: &Lanes, d: &Windows) ensures a@.len() == b@.len(), a@.len() == c@.len(), a@.len() == d.count() { unimplemented!() }
+/// Dimension value returned by raw_dim(): the length of axis 0 and the number of lanes (product of the trailing axes)
+pub struct DimShim { pub d: Ghost<Seq<usize>>, pub lanes: Ghost<nat> }
+impl DimShim {
+    /// IndexMut on a Dimension value (target of rewrite R8); the trailing axes are untouched
+    #[verifier::external_body]
+    pub fn set(&mut self, i: usize, v: usize) requires i < old(self).d@.len()
+        ensures final(self).d@ == old(self).d@.update(i as int, v), final(self).lanes == old(self).lanes { unimplemented!() }
+}
+impl Clone for DimShim {
+    fn clone(&self) -> (r: DimShim) ensures r == *self { DimShim { d: Ghost(self.d@), lanes: Ghost(self.lanes@) } }
+}
+/// `Array::zeros(shape)`: shape is a length (1-D array) or a Dimension value (rows x lanes)
+pub struct Array;
+pub trait ZerosShape: Sized { type Out; spec fn zeros_post(&self, r: &Self::Out) -> bool; }
+impl ZerosShape for usize { type Out = Arr1;
+    open spec fn zeros_post(&self, r: &Arr1) -> bool { r@.len() == *self && forall|i: int| 0 <= i < r@.len() ==> #[trigger] r@[i] == t_zero() } }
+impl ZerosShape for DimShim { type Out = ArrD;
+    open spec fn zeros_post(&self, r: &ArrD) -> bool {
+        r.rows@.len() == self.d@[0] && (forall|i: int| 0 <= i < r.rows@.len() ==> (#[trigger] r.rows@[i]).len() == self.lanes@)
+        && (forall|i: int, j: int| 0 <= i < r.rows@.len() && 0 <= j < self.lanes@ ==> #[trigger] r.rows@[i][j] == t_zero()) } }
+impl Array {
+    #[verifier::external_body]
+    pub fn zeros<S: ZerosShape>(sh: S) -> (r: S::Out) ensures sh.zeros_post(&r) { unimplemented!() }
+}
+impl IndexSpecImpl<usize> for DimShim {
+    open spec fn index_req(&self, i: &usize) -> bool { *i < self.d@.len() }
+}
+impl core::ops::Index<usize> for DimShim { type Output = usize;
+    #[verifier::external_body]
+    fn index(&self, i: usize) -> (r: &usize) ensures *r == self.d@[i as int] { unimplemented!() }
+}
 // ndarray::Zip panics unless all producers have the same shape; a panic is modelled as divergence
 #[verifier::external_body]
 pub fn zip_check2(a: &Lanes, b: &Lanes) ensures a@.len() == b@.len() { unimplemented!() }
@@ -315,9 +398,14 @@ impl ArrD {
     #[verifier::external_body]
     pub fn shape(&self) -> (r: &[usize]) ensures r@ == self.dims@ { unimplemented!() }
     #[verifier::external_body]
+    pub fn raw_dim(&self) -> (r: DimShim) ensures r.d@.len() >= 1, r.d@[0] == self.rows@.len(), self.rows@.len() > 0 ==> r.lanes@ == self.rows@[0].len() { unimplemented!() }
+    #[verifier::external_body]
     pub fn index_axis(&self, ax: Axis, i: usize) -> (r: Lanes)
         requires ax.0 == 0, i < self.rows@.len()
         ensures r@ == self.rows@[i as int] { unimplemented!() }
+    /// `a.view_mut()`: a mutable view of the whole array
+    #[verifier::external_body]
+    pub fn view_mut(&mut self) -> (r: &mut ArrD) ensures *r == *old(self), *final(self) == *final(r) { unimplemented!() }
     /// mutable lane bundle of row i: writes through the returned view land in row i and nowhere else
     #[verifier::external_body]
     pub fn index_axis_mut(&mut self, ax: Axis, i: usize) -> (r: &mut Lanes)
